@@ -2119,7 +2119,12 @@ def float_convert(self, x, st, dt):
             conv = z3.fpToIEEEBV(z3.fpToFP(z3.RNE(), f, z3.Float64()))
             isnan = z3.And(z3.Extract(30, 23, v) == BV(0xFF, 8), z3.Extract(22, 0, v) != BV(0, 23))
             nan = z3.Concat(z3.Extract(31, 31, v), BV(0x7FF, 11), BV(1, 1), z3.Extract(21, 0, v), BV(0, 29))
-            return FloatV(64, z3.If(isnan, nan, conv))
+            return FloatV(64, z3.If(isnan, nan, conv), src=v)
+        if x.src is not None:
+            # narrowing a value that was widened from float32: exact for numbers, NaNs come back quieted
+            s = x.src
+            isnan = z3.And(z3.Extract(30, 23, s) == BV(0xFF, 8), z3.Extract(22, 0, s) != BV(0, 23))
+            return FloatV(32, z3.If(isnan, s | BV(0x00400000, 32), s))
         f = z3.fpBVToFP(v, z3.Float64())
         conv = z3.fpToIEEEBV(z3.fpToFP(z3.RNE(), f, z3.Float32()))
         isnan = z3.And(z3.Extract(62, 52, v) == BV(0x7FF, 11), z3.Extract(51, 0, v) != BV(0, 52))
